@@ -466,36 +466,55 @@ func c14StatusTable(r *Run, reach map[*ssa.Function]bool) {
 				}
 			}
 			if hasAdd {
-				sroot, _ := accessPath(canaryStores[0].Addr)
-				sp, isParam := sroot.(*ssa.Parameter)
-				for _, c := range callSitesOf(fn, reach) {
-					good := isParam
-					detail := ""
-					if !isParam {
-						detail = "the status being incremented is not a parameter of the function"
-					} else {
-						caller := c.Parent()
-						argRoot, _ := accessPath(c.Common().Args[paramIndex(sp)])
-						var bases []*ssa.Store
-						for _, st := range storesOfField(caller, pkgAPI, "ExtendedDaemonSetStatus", map[string]bool{"Desired": true}) {
-							if rt, _ := accessPath(st.Addr); rt == argRoot {
-								bases = append(bases, st)
-							}
-						}
-						if len(bases) == 0 {
-							good = false
-							detail = "the caller stores no base value of Desired into the same status object"
-						}
-						for _, b := range bases {
-							if canExecuteAfter(c, b) {
-								good = false
-								detail = "the base value of Desired at " + r.Prog.Pos(instrPos(b)) + " can be stored after the canary addition"
-							}
+				var add *ssa.Store
+				for _, st := range canaryStores {
+					if fieldName(st.Addr.(*ssa.FieldAddr)) == "Desired" {
+						add = st
+					}
+				}
+				isAdd := map[*ssa.Store]bool{}
+				for _, st := range canaryStores {
+					isAdd[st] = true
+				}
+				// climb from the addition towards the callers until a function that stores the base value
+				// into the same status object is found; there the base must not be storable after the point
+				// from which the addition is reached
+				var climb func(cur *ssa.Function, root ssa.Value, at ssa.Instruction, depth int) (bool, string)
+				climb = func(cur *ssa.Function, root ssa.Value, at ssa.Instruction, depth int) (bool, string) {
+					var bases []*ssa.Store
+					for _, st := range storesOfField(cur, pkgAPI, "ExtendedDaemonSetStatus", map[string]bool{"Desired": true}) {
+						if rt, _ := accessPath(st.Addr); rt == root && !isAdd[st] {
+							bases = append(bases, st)
 						}
 					}
-					r.Check("C14.R1", "canary addition after base Desired", r.Prog.Pos(c.Pos()), shortFunc(c.Parent()),
-						"the canary replica set's Desired is added after the active one's was stored into the same status", good, detail)
+					if len(bases) > 0 {
+						for _, b := range bases {
+							if canExecuteAfter(at, b) {
+								return false, "the base value of Desired at " + r.Prog.Pos(instrPos(b)) + " can be stored after the canary addition"
+							}
+						}
+						return true, "base stored in " + shortFunc(cur)
+					}
+					sp, isParam := root.(*ssa.Parameter)
+					if !isParam || depth > 4 {
+						return false, "no base value of Desired is stored into the same status object before the addition"
+					}
+					sites := callSitesOf(cur, reach)
+					if len(sites) == 0 {
+						return false, "no caller stores a base value of Desired into the same status object"
+					}
+					for _, c := range sites {
+						argRoot, _ := accessPath(c.Common().Args[paramIndex(sp)])
+						if ok, why := climb(c.Parent(), argRoot, c, depth+1); !ok {
+							return false, why
+						}
+					}
+					return true, ""
 				}
+				sroot, _ := accessPath(add.Addr)
+				good, detail := climb(fn, sroot, add, 0)
+				r.Check("C14.R1", "canary addition after base Desired", r.Prog.Pos(instrPos(add)), shortFunc(fn),
+					"the canary replica set's Desired is added after the active one's was stored into the same status", good, detail)
 			}
 		}
 	}
@@ -535,9 +554,10 @@ func c14Planners(r *Run) {
 			r.Undecided("C14.R2", "planner counters", pos, shortFunc(fn), "a status counter field is assigned more than once")
 			continue
 		}
-		loops := findLoops(fn)
+		cr := &cellResolver{prog: r.Prog}
 		var main *loopB
-		phis := map[string]*ssa.Phi{}
+		loopFn := fn // the counting loop may live in a helper that collects the counts
+		phis := map[string]*ccell{}
 		consts := map[string]int64{}
 		bad := ""
 		var names []string
@@ -545,26 +565,25 @@ func c14Planners(r *Run) {
 			names = append(names, F)
 		}
 		sort.Strings(names)
+		isZero := func(v ssa.Value) bool { c, isC := constInt(stripIntConv(v)); return isC && c == 0 }
 		for _, F := range names {
 			v := vals[F]
 			if c, ok := constInt(stripIntConv(v)); ok {
 				consts[F] = c
 				continue
 			}
-			l, ph := loopWithHeaderPhi(loops, v)
-			if l == nil {
-				bad = "NewStatus." + F + " is not a per-node counter of a loop: " + v.String()
+			ph, why := cr.resolve(v, fn)
+			if ph == nil {
+				bad = "NewStatus." + F + " is not a per-node counter of a loop: " + why
 				break
 			}
-			if main != nil && l != main {
+			if main != nil && ph.loop != main {
 				bad = "the status counters are built in different loops"
 				break
 			}
-			main = l
-			for _, e := range l.entryEdges(ph) {
-				if c, ok := constInt(e); !ok || c != 0 {
-					bad = "counter of NewStatus." + F + " does not start at zero"
-				}
+			main, loopFn = ph.loop, ph.fn
+			if !ph.startsFrom(isZero, true) {
+				bad = "counter of NewStatus." + F + " does not start at zero"
 			}
 			phis[F] = ph
 		}
@@ -580,7 +599,7 @@ func c14Planners(r *Run) {
 			r.Undecided("C14.R2", "planner counters", pos, shortFunc(fn), bad)
 			continue
 		}
-		k := newKeyer(fn)
+		k := newKeyer(loopFn)
 		paths, ok := main.iterPaths(k, 5000)
 		r.paths += len(paths)
 		if !ok {
@@ -659,7 +678,7 @@ func c14Planners(r *Run) {
 			d := map[string]int64{}
 			okd := true
 			for F, ph := range phis {
-				x, good := main.deltaOnPath(p, ph)
+				x, good := ph.delta(p)
 				if !good || x < 0 {
 					okd = false
 					chainOK = false
